@@ -4,6 +4,7 @@ go 1.23.0
 
 require (
 	github.com/invopop/gobl v0.0.0
+	github.com/invopop/yaml v0.3.1
 	pgregory.net/rapid v1.3.0
 )
 
@@ -17,7 +18,6 @@ require (
 	github.com/google/uuid v1.6.0 // indirect
 	github.com/invopop/jsonschema v0.12.0 // indirect
 	github.com/invopop/validation v0.7.0 // indirect
-	github.com/invopop/yaml v0.3.1 // indirect
 	github.com/mailru/easyjson v0.7.7 // indirect
 	github.com/wk8/go-ordered-map/v2 v2.1.8 // indirect
 	golang.org/x/crypto v0.36.0 // indirect
